@@ -179,13 +179,14 @@ def lookup (k : String) : FS → Option (List (List String))
   | [] => none
   | (k', v) :: r => if k = k' then some v else lookup k r
 
-/-- `ApplyInclude`: for every entry, cycle test on its first path only, then load the entry's files
-(`load` = the recursive `loadYamlModel`) -/
+/-- `ApplyInclude`: for every entry, cycle test on every path of the entry (the first is the base, the others are
+overrides — all of them are loaded), then load the entry's files (`load` = the recursive `loadYamlModel`).
+Before the repair of `hang@include-override-position` only the first path was tested. -/
 def applyInclude (load : List String → List String → Res) : List (List String) → List String → Res
   | [], _ => .ok
   | [] :: rest, included => applyInclude load rest included      -- no path: nothing to load
   | (p0 :: ps) :: rest, included =>
-    if p0 ∈ included then .err "includeCycle"
+    if (p0 :: ps).any (fun p => decide (p ∈ included)) = true then .err "includeCycle"
     else match load (p0 :: ps) included with
       | .ok => applyInclude load rest included
       | r => r
